@@ -252,7 +252,17 @@ func pinnedC01() []*pgen.Case {
 		pinnedHelperNameClash("pin_helper_clash_func", "// goverter:output:format function\n// goverter:output:file ./p.gen.go\n", false),
 		pinnedHelperNameClash("pin_helper_clash_struct", "// goverter:output:file ./p.gen.go\n", false),
 		pinnedHelperNameClash("pin_helper_clash_vars", "", true),
-		pinnedSameName("pin_same_impl_name", false), pinnedSameName("pin_same_func_name", true)}
+		pinnedSameName("pin_same_impl_name", false), pinnedSameName("pin_same_func_name", true),
+		pinnedFuncTypes("pin_func_types")}
+}
+
+// pinnedFuncTypes: function types that goverter has to spell out (make, temporaries): the rendered type must be
+// identical to the user's (only the LAST parameter of a variadic function is variadic, results, named parameters).
+func pinnedFuncTypes(name string) *pgen.Case {
+	src := "package p\n\ntype F1 = func(args []string, env ...string) error\ntype In struct{ M map[string]F1; P *func(a []int, b []string, c ...[]int) (int, error); L []func(...string) }\ntype Out struct{ M map[string]*F1; P func(a []int, b []string, c ...[]int) (int, error); L []*func(...string) }\n\n// goverter:converter\n// goverter:skipCopySameType\n// goverter:useZeroValueOnPointerInconsistency\ntype Converter interface {\n\tConvert(source In) Out\n\tMaps(source map[string]func(args []string, env ...string) error) map[string]*func(args []string, env ...string) error\n}\n"
+	c := pgen.RawCase(name, map[string]string{"p/input.go": src}, nil, []string{"./p"})
+	c.Feature("tag", "func-types")
+	return c
 }
 
 // pinnedSameName: converters that land in one output package and would declare the same identifier (two
